@@ -870,3 +870,103 @@ Proof.
   - induction H as [|b s Hb _ IH]; [reflexivity|].
     cbn [utf8_lossy]. destruct (N.ltb_spec b 128); [|lia]. rewrite IH. reflexivity.
 Qed.
+
+(* ==================================================================== *)
+(* The build mode is irrelevant for the current code: no usize addition ever
+   overflows, so debug and release builds compute the same answer. *)
+Section ModeIrrelevant.
+  Variable m : build.
+
+  Lemma uadd_small : forall a b, a + b < U64 -> uadd m a b = Done (a + b).
+  Proof. intros a b H. unfold uadd. destruct (N.ltb_spec (a + b) U64); [reflexivity|lia]. Qed.
+
+  Lemma skip_field_mode : forall code wt data pos,
+    pos <= N.of_nat (length data) -> N.of_nat (length data) < I63 ->
+    skip_field (current m) code wt data (N.of_nat (length data)) pos
+    = skip_field (current Debug) code wt data (N.of_nat (length data)) pos.
+  Proof.
+    intros code wt data pos Hpos Hlen. unfold skip_field.
+    assert (HU : I63 + 8 < U64) by (vm_compute; reflexivity).
+    destruct (wt =? 0); [reflexivity|].
+    destruct (wt =? 1).
+    { unfold current. cbn [c_mode]. rewrite uadd_small by lia. unfold uadd.
+      destruct (N.ltb_spec (pos + 8) U64); [reflexivity|lia]. }
+    destruct (wt =? 2); [reflexivity|].
+    destruct (wt =? 5); [|reflexivity].
+    unfold current. cbn [c_mode]. rewrite uadd_small by lia. unfold uadd.
+    destruct (N.ltb_spec (pos + 4) U64); [reflexivity|lia].
+  Qed.
+
+  Lemma msg_loop_mode : forall (A : Type) code (h1 h2 : handler A) data,
+    N.of_nat (length data) < I63 ->
+    (forall field wt pos acc, pos <= N.of_nat (length data) -> h1 field wt pos acc = h2 field wt pos acc) ->
+    forall fuel pos acc,
+      msg_loop (current m) code h1 fuel data (N.of_nat (length data)) pos acc
+      = msg_loop (current Debug) code h2 fuel data (N.of_nat (length data)) pos acc.
+  Proof.
+    intros A code h1 h2 data Hlen Hh. induction fuel as [|fuel IH]; intros pos acc; cbn [msg_loop]; [reflexivity|].
+    destruct (pos <? N.of_nat (length data)); [|reflexivity].
+    destruct (read_varint data pos) as [[tag pos1]| | |] eqn:Hv; cbn [obind]; try reflexivity.
+    apply read_varint_bounds in Hv. destruct Hv as [_ Hv2]. cbn [fst snd].
+    rewrite (Hh _ _ pos1 acc Hv2).
+    destruct (h2 (N.shiftr tag 3) (N.land tag 7) pos1 acc) as [o|].
+    - destruct o as [[acc' p2]| | |]; cbn [obind]; try reflexivity. apply IH.
+    - rewrite skip_field_mode by assumption.
+      destruct (skip_field (current Debug) code (N.land tag 7) data (N.of_nat (length data)) pos1); cbn [obind]; try reflexivity.
+      apply IH.
+  Qed.
+
+  Lemma parse_sample_mode : forall data, N.of_nat (length data) < I63 ->
+    parse_sample (current m) data = parse_sample (current Debug) data.
+  Proof.
+    intros data Hlen. unfold parse_sample, parse_msg. apply msg_loop_mode; [exact Hlen|].
+    intros field wt pos acc Hpos. unfold sample_handler.
+    assert (HU : I63 + 8 < U64) by (vm_compute; reflexivity).
+    destruct ((field =? 1) && (wt =? 1)); [|reflexivity].
+    unfold current. cbn [c_mode]. rewrite uadd_small by lia. unfold uadd.
+    destruct (N.ltb_spec (pos + 8) U64); [reflexivity|lia].
+  Qed.
+
+  Lemma parse_label_mode : forall data, N.of_nat (length data) < I63 ->
+    parse_label (current m) data = parse_label (current Debug) data.
+  Proof.
+    intros data Hlen. unfold parse_label, parse_msg. apply msg_loop_mode; [exact Hlen|].
+    intros field wt pos acc Hpos. reflexivity.
+  Qed.
+
+  Lemma parse_timeseries_mode : forall data, N.of_nat (length data) < I63 ->
+    parse_timeseries (current m) data = parse_timeseries (current Debug) data.
+  Proof.
+    intros data Hlen. unfold parse_timeseries, parse_msg. apply msg_loop_mode; [exact Hlen|].
+    intros field wt pos acc Hpos. unfold series_handler.
+    destruct ((field =? 1) && (wt =? 2)).
+    { change (read_delim (current m)) with (read_delim (current Debug)).
+      pose proof (read_delim_spec Debug data pos E_TRUNC_LABEL) as Hd.
+      destruct (read_delim (current Debug) data (N.of_nat (length data)) pos E_TRUNC_LABEL) as [[bs e]| | |];
+        cbn [obind fst snd] in *; try reflexivity.
+      rewrite parse_label_mode by lia. reflexivity. }
+    destruct ((field =? 2) && (wt =? 2)); [|reflexivity].
+    change (read_delim (current m)) with (read_delim (current Debug)).
+    pose proof (read_delim_spec Debug data pos E_TRUNC_SAMPLE) as Hd.
+    destruct (read_delim (current Debug) data (N.of_nat (length data)) pos E_TRUNC_SAMPLE) as [[bs e]| | |];
+      cbn [obind fst snd] in *; try reflexivity.
+    rewrite parse_sample_mode by lia. reflexivity.
+  Qed.
+
+  Lemma parse_write_request_mode : forall data, N.of_nat (length data) < I63 ->
+    parse_write_request (current m) data = parse_write_request (current Debug) data.
+  Proof.
+    intros data Hlen. unfold parse_write_request, parse_msg. apply msg_loop_mode; [exact Hlen|].
+    intros field wt pos acc Hpos. unfold request_handler.
+    destruct ((field =? 1) && (wt =? 2)); [|reflexivity].
+    change (read_delim (current m)) with (read_delim (current Debug)).
+    pose proof (read_delim_spec Debug data pos E_TRUNC_TIMESERIES) as Hd.
+    destruct (read_delim (current Debug) data (N.of_nat (length data)) pos E_TRUNC_TIMESERIES) as [[bs e]| | |];
+      cbn [obind fst snd] in *; try reflexivity.
+    rewrite parse_timeseries_mode by lia. reflexivity.
+  Qed.
+End ModeIrrelevant.
+
+Theorem mode_irrelevant : forall (data : bytes), N.of_nat (length data) < I63 ->
+  parse_write_request (current Release) data = parse_write_request (current Debug) data.
+Proof. intros data H. apply parse_write_request_mode. exact H. Qed.
